@@ -159,7 +159,7 @@ def duplicate_lengths_case(ctx, idx, rng):
 
 def random_case(ctx, idx, rng):
     import pytenet.bipartite_graph as bg
-    nu, nv, edges, kind = gen.rand_bipartite(rng, 60 if idx % 4 else 12)
+    nu, nv, edges, kind = gen.rand_bipartite(rng, (60 if idx % 4 else 12) if idx % 25 else 250)
     small = nu <= 6 and nv <= 6
     r = refs.max_matching_kuhn(nu, nv, edges)
     if small:
